@@ -104,82 +104,123 @@ def _contains_return(stmts) -> bool:
     return False
 
 
-def _elim(stmts: list[ast.stmt], target: Optional[list[ast.expr]], ann, tail: bool = True) -> tuple[list[ast.stmt], str]:
-    """Rewrite ``return e`` into ``target = e`` + structured skipping of the rest.
+class _Elim:
+    """Structured elimination of ``return`` from a helper body.
 
-    ``tail``: the statement list ends where the helper ends (falling off it means "return None").
-    Kinds: _RET every path ends in a (rewritten) return, _ABRUPT every path raises / breaks /
-    continues, _FALL some path continues after the list.
+    ``on_return(value_expr, return_stmt) -> list[stmt]`` says what a return becomes (an assignment
+    to the call's target, an expression statement, or - for a boolean helper used as an ``if``
+    test - the statements of the branch it selects).  ``free`` = nothing has to be delivered and
+    nothing follows, so a path that simply falls off the end needs no rewriting.
     """
-    out: list[ast.stmt] = []
-    for i, st in enumerate(stmts):
-        rest = stmts[i + 1 :]
-        if isinstance(st, ast.Return):
-            val = st.value if st.value is not None else ast.Constant(value=None)
-            if target is None:
-                if any(isinstance(n, (ast.Call, ast.Await)) for n in ast.walk(val)):
-                    out.append(ast.copy_location(ast.Expr(value=val), st))
-            elif ann is not None and len(target) == 1 and isinstance(target[0], ast.Name):
-                out.append(ast.copy_location(ast.AnnAssign(target=clone(target[0]), annotation=clone(ann), value=val, simple=1), st))
-            else:
-                out.append(ast.copy_location(ast.Assign(targets=[clone(t) for t in target], value=val), st))
-            return out, _RET
-        if isinstance(st, (ast.Raise, ast.Continue, ast.Break)):
-            out.append(st)
-            return out, _ABRUPT
-        if not _contains_return([st]):
-            out.append(st)
-            continue
-        sub_tail = tail and not rest
-        free = sub_tail and target is None  # nothing to skip, no value to deliver
-        if isinstance(st, ast.If):
-            b, kb = _elim(st.body, target, ann, sub_tail)
-            o, ko = _elim(st.orelse, target, ann, sub_tail) if st.orelse else ([], _FALL)
-            mixed = (kb == _FALL and _contains_return(st.body)) or (ko == _FALL and _contains_return(st.orelse))
-            mk = lambda bb, oo: ast.copy_location(ast.If(test=st.test, body=bb or [ast.copy_location(ast.Pass(), st)], orelse=oo), st)
-            if mixed:
-                if free:
+
+    def __init__(self, on_return, needs_value: bool):
+        self.on_return = on_return
+        self.needs_value = needs_value
+
+    def run(self, stmts: list[ast.stmt], tail: bool = True) -> tuple[list[ast.stmt], str]:
+        out: list[ast.stmt] = []
+        for i, st in enumerate(stmts):
+            rest = stmts[i + 1 :]
+            if isinstance(st, ast.Return):
+                val = st.value if st.value is not None else ast.Constant(value=None)
+                out.extend(self.on_return(val, st))
+                return out, _RET
+            if isinstance(st, (ast.Raise, ast.Continue, ast.Break)):
+                out.append(st)
+                return out, _ABRUPT
+            if not _contains_return([st]):
+                out.append(st)
+                continue
+            sub_tail = tail and not rest
+            free = sub_tail and not self.needs_value
+            if isinstance(st, ast.If):
+                b, kb = self.run(st.body, sub_tail)
+                o, ko = self.run(st.orelse, sub_tail) if st.orelse else ([], _FALL)
+                mixed = (kb == _FALL and _contains_return(st.body)) or (ko == _FALL and _contains_return(st.orelse))
+                mk = lambda bb, oo: ast.copy_location(ast.If(test=st.test, body=bb or [ast.copy_location(ast.Pass(), st)], orelse=oo), st)
+                if mixed:
+                    if free:
+                        out.append(mk(b, o))
+                        return out, _FALL
+                    raise _Bail("a branch returns on some of its paths only")
+                if kb != _FALL and ko != _FALL:
                     out.append(mk(b, o))
-                    return out, _FALL
-                raise _Bail("a branch returns on some of its paths only")
-            if kb != _FALL and ko != _FALL:
-                out.append(mk(b, o))
-                return out, (_RET if _RET in (kb, ko) else _ABRUPT)
-            r, kr = _elim(rest, target, ann, tail)
-            if kb != _FALL:
-                out.append(mk(b, o + r))
-            else:
-                out.append(mk(b + r, o))
-            return out, kr
-        if isinstance(st, ast.With):
-            b, kb = _elim(st.body, target, ann, sub_tail)
-            if kb == _FALL and not free:
-                raise _Bail("with-body returns on some paths only")
-            out.append(ast.copy_location(ast.With(items=st.items, body=b), st))
-            return out, kb
-        if isinstance(st, ast.Try):
-            if st.finalbody and _contains_return(st.finalbody):
-                raise _Bail("return inside finally")
-            b, kb = _elim(st.body, target, ann, sub_tail and not st.orelse)
-            if st.orelse and _contains_return(st.body):
-                raise _Bail("try/else after a returning body")
-            o, ko = _elim(st.orelse, target, ann, sub_tail) if st.orelse else ([], kb)
-            hs = []
-            kinds = [ko]
-            for h in st.handlers:
-                hb, kh = _elim(h.body, target, ann, sub_tail)
-                hs.append(ast.copy_location(ast.ExceptHandler(type=h.type, name=h.name, body=hb or [ast.copy_location(ast.Pass(), h)]), h))
-                kinds.append(kh)
-            new = ast.copy_location(ast.Try(body=b, handlers=hs, orelse=o if st.orelse else [], finalbody=st.finalbody), st)
-            if _FALL in kinds:
-                if not free:
+                    return out, (_RET if _RET in (kb, ko) else _ABRUPT)
+                r, kr = self.run(rest, tail)
+                if kb != _FALL:
+                    out.append(mk(b, o + r))
+                else:
+                    out.append(mk(b + r, o))
+                return out, kr
+            if isinstance(st, ast.With):
+                b, kb = self.run(st.body, sub_tail)
+                if kb == _FALL and not free:
+                    raise _Bail("with-body returns on some paths only")
+                out.append(ast.copy_location(ast.With(items=st.items, body=b), st))
+                return out, kb
+            if isinstance(st, ast.Try):
+                if st.finalbody and _contains_return(st.finalbody):
+                    raise _Bail("return inside finally")
+                b, kb = self.run(st.body, sub_tail and not st.orelse)
+                if st.orelse and _contains_return(st.body):
+                    raise _Bail("try/else after a returning body")
+                o, ko = self.run(st.orelse, sub_tail) if st.orelse else ([], kb)
+                hs = []
+                hkinds = []
+                for h in st.handlers:
+                    hb, kh = self.run(h.body, sub_tail)
+                    hs.append(ast.copy_location(ast.ExceptHandler(type=h.type, name=h.name, body=hb or [ast.copy_location(ast.Pass(), h)]), h))
+                    hkinds.append(kh)
+                kinds = [ko] + hkinds
+                if _FALL in kinds:
+                    if free:
+                        out.append(ast.copy_location(ast.Try(body=b, handlers=hs, orelse=o if st.orelse else [], finalbody=st.finalbody), st))
+                        return out, _FALL
+                    if ko == _FALL and _FALL not in hkinds and not _contains_return(st.body + st.orelse) and not st.finalbody:
+                        # the protected part falls through, every handler leaves: what follows the
+                        # try runs exactly when nothing was raised -> it is the try's else-clause
+                        r, kr = self.run(rest, tail)
+                        out.append(ast.copy_location(ast.Try(body=b, handlers=hs, orelse=(o if st.orelse else []) + r, finalbody=[]), st))
+                        if kr == _FALL:
+                            return out, _FALL
+                        return out, (_RET if _RET in [kr] + hkinds else _ABRUPT)
                     raise _Bail("try returns on some paths only")
-                out.append(new)
-                return out, _FALL
-            out.append(new)
-            return out, (_RET if _RET in kinds else _ABRUPT)
-        raise _Bail(f"return inside {type(st).__name__}")
-    return out, _FALL
+                out.append(ast.copy_location(ast.Try(body=b, handlers=hs, orelse=o if st.orelse else [], finalbody=st.finalbody), st))
+                return out, (_RET if _RET in kinds else _ABRUPT)
+            raise _Bail(f"return inside {type(st).__name__}")
+        return out, _FALL
+
+
+def _elim(stmts: list[ast.stmt], target: Optional[list[ast.expr]], ann, tail: bool = True) -> tuple[list[ast.stmt], str]:
+    """``return e`` -> ``target = e`` (or an expression statement when the result is unused)."""
+
+    def on_return(val, st):
+        if target is None:
+            if any(isinstance(n, (ast.Call, ast.Await)) for n in ast.walk(val)):
+                return [ast.copy_location(ast.Expr(value=val), st)]
+            return []
+        if ann is not None and len(target) == 1 and isinstance(target[0], ast.Name):
+            return [ast.copy_location(ast.AnnAssign(target=clone(target[0]), annotation=clone(ann), value=val, simple=1), st)]
+        return [ast.copy_location(ast.Assign(targets=[clone(t) for t in target], value=val), st)]
+
+    return _Elim(on_return, target is not None).run(stmts, tail)
+
+
+def _thread(stmts: list[ast.stmt], then_body: list[ast.stmt], else_body: list[ast.stmt]) -> list[ast.stmt]:
+    """Jump threading for ``if helper(..): A else: B`` when every return of the helper is a
+    boolean constant: ``return True`` becomes A, ``return False`` becomes B."""
+
+    def on_return(val, st):
+        if isinstance(val, ast.Constant) and val.value is True:
+            return [clone(x) for x in then_body] or [ast.copy_location(ast.Pass(), st)]
+        if isinstance(val, ast.Constant) and (val.value is False or val.value is None):
+            return [clone(x) for x in else_body] or [ast.copy_location(ast.Pass(), st)]
+        raise _Bail("helper used as a test does not return boolean constants")
+
+    body, kind = _Elim(on_return, True).run(stmts, True)
+    if kind == _FALL:
+        raise _Bail("boolean helper may end without a return")
+    return body
 
 
 # --------------------------------------------------------------------------- renaming / substitution
@@ -424,6 +465,47 @@ class Inliner:
         if isinstance(st, ast.Match):
             for c, oc in zip(st.cases, ost.cases):
                 c.body = self._stmts(fctx, c.body, stack, oc.body, caller_names)
+        # x = helper(..) if c else y   ->   if c: x = helper(..) else: x = y   (then spliced)
+        if isinstance(st, (ast.Assign, ast.AnnAssign, ast.Return)) and isinstance(st.value, ast.IfExp) and not isinstance(getattr(st, "target", None), (ast.Tuple,)):
+            ie, oie = st.value, ost.value
+            arms = [(ie.body, oie.body), (ie.orelse, oie.orelse)]
+            if any(isinstance(a, ast.Call) and self._callee(fctx, oa, stack) is not None and not self._is_expr_function(self._callee(fctx, oa, stack)) for a, oa in arms):
+                def mk(val, oval):
+                    if isinstance(st, ast.Assign):
+                        n_, o_ = ast.Assign(targets=[clone(t) for t in st.targets], value=val), ast.Assign(targets=ost.targets, value=oval)
+                    elif isinstance(st, ast.AnnAssign):
+                        n_, o_ = ast.AnnAssign(target=clone(st.target), annotation=clone(st.annotation), value=val, simple=st.simple), ast.AnnAssign(target=ost.target, annotation=ost.annotation, value=oval, simple=ost.simple)
+                    else:
+                        n_, o_ = ast.Return(value=val), ast.Return(value=oval)
+                    return ast.copy_location(n_, st), ast.copy_location(o_, ost)
+
+                (nb, ob), (ne, oe) = mk(ie.body, oie.body), mk(ie.orelse, oie.orelse)
+                new_if = ast.copy_location(ast.If(test=ie.test, body=[nb], orelse=[ne]), st)
+                old_if = ast.copy_location(ast.If(test=oie.test, body=[ob], orelse=[oe]), ost)
+                for n_ in (nb, ne):
+                    n_._parent = new_if  # type: ignore[attr-defined]
+                return self._stmt(fctx, new_if, old_if, stack, caller_names)
+        # if helper(..): A else: B  with a helper that only returns True / False -> jump threading
+        if isinstance(st, ast.If):
+            t, ot, neg = st.test, ost.test, False
+            if isinstance(t, ast.UnaryOp) and isinstance(t.op, ast.Not):
+                t, ot, neg = t.operand, ot.operand, True
+            if isinstance(t, ast.Call):
+                g = self._callee(fctx, ot, stack)
+                if g is not None and not self._is_expr_function(g):
+                    try:
+                        self._fctx = fctx
+                        pre, body = self._prepare(g, t, caller_names, stack)
+                        then_b, else_b = (st.orelse, st.body) if neg else (st.body, st.orelse)
+                        new = pre + _thread(body, then_b, else_b)
+                        for s_ in new:
+                            ast.fix_missing_locations(s_)
+                        self.inlined.append(g.qual)
+                        self.inlined_calls.add(id(ot))
+                        caller_names |= _all_names(ast.Module(body=new, type_ignores=[]))
+                        return new
+                    except _Bail as ex:
+                        self.skipped.append((g.qual, str(ex)))
         # statement splice
         call = ocall = None
         target = None
@@ -518,6 +600,7 @@ class Inliner:
         new_node.body = self._stmts(f, new_node.body, (f.qual,), orig_stmts=f.node.body)
         if not self.inlined:
             return f
+        _tidy(new_node)
         ast.fix_missing_locations(new_node)
         set_parents(new_node)
         new_node._parent = getattr(f.node, "_parent", None)  # type: ignore[attr-defined]
@@ -529,6 +612,25 @@ class Inliner:
             if isinstance(n, (ast.FunctionDef, ast.AsyncFunctionDef)):
                 _mk_nested(g, n)
         return g
+
+
+def _tidy(fn_node: ast.AST) -> None:
+    """Remove artefacts of splicing: ``x = x``, ``else: pass``, ``pass`` next to other statements."""
+    for n in ast.walk(fn_node):
+        for fld in ("body", "orelse", "finalbody"):
+            lst = getattr(n, fld, None)
+            if not isinstance(lst, list) or not lst or not isinstance(lst[0], ast.stmt):
+                continue
+            keep = []
+            for st in lst:
+                if isinstance(st, ast.Assign) and len(st.targets) == 1 and isinstance(st.targets[0], ast.Name) and isinstance(st.value, ast.Name) and st.value.id == st.targets[0].id:
+                    continue
+                if isinstance(st, ast.Pass):
+                    continue
+                keep.append(st)
+            if not keep and fld == "body":
+                keep = [ast.copy_location(ast.Pass(), lst[0])]
+            setattr(n, fld, keep)
 
 
 def _mk_nested(outer: FuncInfo, node) -> None:
